@@ -84,8 +84,8 @@ seeded changes and which check catches which in §11.
   trip of C15/C16, agreement of `fill_inplace` with `wrap`) — C09's and C08's relational clauses are now theorems over
   `wrap`'s functional postcondition (U11) —, the real
   tables of `unicode-linebreak` / `unicode-width` / `smawk` behind the assumed shapes.
-* **Robustness of the machinery** (§8, §11): 162 seeded property-breaking changes that compile and pass the upstream suite
-  (5 reverted fixes + 157 from independent sub-agents in ten waves) are all reported; 25 + 12 behaviour-preserving refactors
+* **Robustness of the machinery** (§8, §11): 168 seeded property-breaking changes that compile and pass the upstream suite
+  (5 reverted fixes + 163 from independent sub-agents in eleven waves) are all reported; 25 + 12 behaviour-preserving refactors
   raise no alarm; every unit verifies under 8 different SMT seeds; the unchanged tree passes all 20 checks in both tiers.
 """)
 w(s1.rstrip()+"\n")
@@ -278,7 +278,13 @@ These are `fixed:` entries of `known_findings.json`; they suppress nothing, and 
 (seeds `revert_F1` … `revert_F5`).
 
 Open known findings (reported as `KNOWN-FINDING`, class-tagged so that any *other* violation of the same property is
-still a VIOLATION):
+still a VIOLATION). An input class alone would be too coarse — a change that breaks the property on *further* inputs of the same
+class would hide behind the finding (seed w11_C14_A did exactly that) — so each finding is also pinned to the **set of inputs** on
+which it shows: for every contract, feature flavour and tier at the default seed, `known_findings.json` records how many inputs of
+the scope fail in that class and an order-independent fingerprint of their case indices (`expected_sets`, written by
+`tools/kfexpect.py` on the unchanged tree, by hand; `./check` never writes the file). A run whose class failures differ in count or
+fingerprint reports a VIOLATION ("known finding KFx now shows on a different set of inputs") with one of them as replay. For other
+seeds the sampled inputs differ, nothing is recorded, and the class tag alone decides.
 
 * **KF1 (C02).** First-fit, `break_words` off, an indent that alone is wider than the width, and a rest of display width 0
   that still contains a break opportunity, e.g. `wrap("\\u{200b}\\u{ad}", Options::new(0).initial_indent("> ").break_words(false))`
@@ -392,13 +398,14 @@ the property states.
 
 ## 11. Seeded changes and what catches them
 
-`seeded/` holds 162 changes that compile, pass the upstream suite in both feature sets, and break a property: the 5
-reverted fixes and 157 produced by independent sub-agents given **only** the property text and a scratch worktree (wave 1–2:
+`seeded/` holds 168 changes that compile, pass the upstream suite in both feature sets, and break a property: the 5
+reverted fixes and 163 produced by independent sub-agents given **only** the property text and a scratch worktree (wave 1–2:
 two per property; wave 3: cooperating edits / indirect helpers / wrong fast paths; wave 4–5: changes that need something
 specific to manifest, avoiding the most obvious single-token edits; wave 6: with a hint which file to change; wave 7: with the
 ideas that earlier waves over-used forbidden (ASCII width shortcuts, `trim_end()`, byte lengths of indents, early return in `refill`);
 wave 8: changes that only show with a non-default option value or feature set — all 13 reported without any strengthening;
 wave 9: 15 more with a longer list of forbidden ideas — again all reported as the checks stood;
+wave 11: 6 more of that kind for C03, C04, C10, C13, C14, C16 — three misses on first contact, see the table;
 wave 10: 14 changes *disguised as refactors* — renamed locals, restructured loops, extracted helpers, with one of the "equivalent" rewrites not equivalent — all reported as the checks stood: where the restructuring leaves the Verus unit undecided, the bounded contracts of the same property decide). Each was confirmed by `tools/seedverify.sh` (patch applies; suite passes in both feature sets;
 its demonstration fails with the patch and passes without). `tools/seedtest.py` applies each to `/repo`, runs the checks
 of the properties it breaks, and undoes it; `seeded/RESULTS.json` is its output and **`seeded/RESULTS.md` the full table**
@@ -420,6 +427,9 @@ Misses on first contact and what was strengthened (never by weakening a check):
 | 6 | w6_C02_A (last piece of a split word gets `word.width - widths of the earlier pieces`) | only wrong when a split point falls inside an escape sequence; no sequence with a hyphen in the alphabets | hyperlink with a hyphenated URL added to the broad alphabet (which also surfaced known findings KF5/KF6) |
 | 6 | w6_C07_A (same patch as w6_C11_A: ASCII fast path for the width cached by `Word::from`) | not a miss: `split_words` re-measures every word, so `wrap` is unaffected and first-fit still follows the greedy rule for the widths its fragments report; the broken property is C11 | seed relabelled (C11, which reports it); a tab was added to the core wrap alphabet all the same |
 | 7 | w7_C05_A (shortcut extended to indented lines, dropping a zero-width indent) | C05 / C09 / C14 ran only the four ASCII indent pairs | the broad-alphabet and random passes of every wrap suite now run every indent pair (multi-byte, zero-width, ANSI-coloured, wider than the width) with both line endings |
+| 11 | w11_C10_A (`find` with a stale `prev` initialised to ESC: an OSC whose payload starts with `\\` ends at once) | no `]` or BEL on their own in C10's alphabet, so `ESC ] \\` could not be formed; Verus undecided (loop turned into `find`) | `]` and BEL added to the display-width alphabet |
+| 11 | w11_C14_A (tail piece of a split word gets `word.width` minus the head widths — wrong only when a split point lies inside an escape sequence) | every failing input belongs to the input class of known finding KF6 and was suppressed with it | known findings are pinned to the recorded set of failing inputs (§5): a different set is a violation |
+| 11 | w11_C16_A (`matches!(ch, '*'..='/')` makes `,` and `.` prefix characters) | no word of the unfill / refill vocabulary starts with `.` or `,` | `.x` and `,yy` in the vocabulary, `.` and `,` in the unfill alphabet |
 | 7 | w7_C15_A (`unfill` stops measuring lines once the common indent is empty) | round-trip paragraphs had at most three words in the quick tier, so never four lines | a pass over fixed paragraphs of 6–8 words (widest line first / last / in the middle) |
 
 **Verus on its own** (`tools/seedverus.py`, `seeded/VERUS.json`: each change applied to a scratch copy, only the Verus units run):
